@@ -50,3 +50,20 @@ def jobs(name, gen, info, mm='sc', unwind=4, timeout=300, required=True, mem_gb=
     if witness:
         out.append(Job(name + '#witness', base + ['-DWITNESS'], 'witness', timeout, mem_gb, required, meta, witness_of=name))
     return out
+
+
+def config(pid, name, harness, threads, unwind, mm='sc', srcs=(), defines=(), spec=None, timeout=600, required=True,
+           mem_gb=12, bounds='', solver=None, extra_meta=None):
+    """build one harness configuration and return its hold + witness jobs"""
+    sp = dict(spec or {})
+    sp['threads'] = threads
+    outdir = os.path.join(BUILD, pid, name)
+    gen, info = build(name, os.path.join(E2, 'harness', harness), list(srcs), sp, outdir, defines=list(defines))
+    tops = [t for t in info['top_sites'] if not t.startswith('vm_init')]
+    meta = {'bounds': bounds, 'harness': harness, 'defines': list(defines), 'threads': threads,
+            'spin_bound': sp.get('spin', 2), 'cell_classes': info.get('cell_classes'),
+            'assertions_in_harness': info['assertions']}
+    if extra_meta:
+        meta.update(extra_meta)
+    return jobs(name + '.' + mm, gen, info, mm=mm, unwind=unwind, timeout=timeout, required=required, mem_gb=mem_gb, meta=meta,
+                solver=solver)
